@@ -2,3 +2,4 @@ import Mkdb.Model.LRU
 import Mkdb.Generated.Consts
 import Mkdb.Generated.Tokens
 import Mkdb.Props.C15
+import Mkdb.Props.C12
